@@ -4,6 +4,7 @@ import (
 	"fmt"
 	"sort"
 	"strings"
+	"time"
 
 	"github.com/nalgeon/redka/verifhook"
 )
@@ -127,4 +128,40 @@ func fmtViewRow(vals []any) string {
 		}
 		return fmt.Sprintf("%s.%s=%s", b(vals[0]), b(vals[1]), b(vals[2])) // vhash
 	}
+}
+
+// ViewsInTheLastSecond: keys of all five types that are alive but will expire within the current
+// wall-clock second (at 900 ms into it; the check starts within the first 250 ms).  The views
+// must show them exactly as the API does.  Returns "" when consistent (or when the timing could
+// not be arranged), else the difference.
+func ViewsInTheLastSecond() string {
+	for attempt := 0; attempt < 3; attempt++ {
+		x, err := OpenMem("viewsec")
+		if err != nil {
+			return ""
+		}
+		for time.Now().UnixMilli()%1000 > 150 {
+			time.Sleep(3 * time.Millisecond)
+		}
+		at := time.UnixMilli(time.Now().UnixMilli()/1000*1000 + 900)
+		_ = x.DB.Str().Set("vs", "v")
+		_, _ = x.DB.List().PushBack("vl", "a")
+		_, _ = x.DB.Set().Add("ve", "m")
+		_, _ = x.DB.Hash().Set("vh", "f", "v")
+		_, _ = x.DB.ZSet().Add("vz", "m", 1)
+		_ = x.DB.Str().Set("control", "v")
+		for _, k := range []string{"vs", "vl", "ve", "vh", "vz"} {
+			_ = x.DB.Key().ExpireAt(k, at)
+		}
+		msg := AuditViews(x)
+		done := time.Now()
+		x.Close()
+		if done.Before(at.Add(-100 * time.Millisecond)) {
+			if msg != "" && msg != "ok" {
+				return "keys alive in the wall-clock second in which they expire: " + msg
+			}
+			return ""
+		}
+	}
+	return ""
 }
